@@ -4,6 +4,9 @@
 //!   assignment step so that it can be driven with arbitrary centroids.
 //! * [`set_kmeans_observer`] installs a thread-local observer that is called after
 //!   every tree-accelerated assignment step performed inside `KMeans::fit`.
+//! * [`set_tick_observer`] installs a thread-local observer that is called once per
+//!   iteration of the SMO loops of `SVC::fit` and `SVR::fit` (a logical clock for
+//!   bounded-liveness checks).
 
 use std::cell::RefCell;
 
@@ -78,4 +81,23 @@ pub fn bbd_clustering<T: RealNumber, M: Matrix<T>>(
     let mut membership = vec![0usize; n];
     let dist = tree.clustering(centroids, &mut sums, &mut counts, &mut membership);
     (sums, counts, membership, dist)
+}
+
+type TickObserver = Box<dyn FnMut(&'static str)>;
+
+thread_local! {
+    static TICK_OBS: RefCell<Option<TickObserver>> = RefCell::new(None);
+}
+
+/// Install (or, with `None`, remove) this thread's tick observer.
+pub fn set_tick_observer(obs: Option<TickObserver>) {
+    TICK_OBS.with(|o| *o.borrow_mut() = obs);
+}
+
+pub(crate) fn tick(site: &'static str) {
+    TICK_OBS.with(|o| {
+        if let Some(f) = o.borrow_mut().as_mut() {
+            f(site);
+        }
+    });
 }
